@@ -1,7 +1,9 @@
 (* Correspondence cases for the cryptographic primitives: the Gallina AES-128,
    AES-CMAC and RFC 3394 key wrap against the Go implementations the repository
    calls (crypto/aes, github.com/jacobsa/crypto/cmac,
-   github.com/NickBall/go-aes-key-wrap).
+   github.com/NickBall/go-aes-key-wrap).  The [...Any] cases are the same
+   comparisons for keys of every length (AESAny.v / KeyWrapAny.v: AES-128/192/256,
+   [None] = crypto/aes.NewCipher refuses the key size).
 
    bit 0: the model's output differs from the observed output;
    bit 1: an executable property fails on the observed output:
@@ -15,7 +17,7 @@
        trailing partial block); on failure the recovered initial value is not
        the default one. *)
 From Coq Require Import List NArith ZArith Bool.
-From LW Require Import Base.Outcome Base.Bytes Crypto.AES Crypto.CMAC Crypto.KeyWrap.
+From LW Require Import Base.Outcome Base.Bytes Crypto.AES Crypto.CMAC Crypto.KeyWrap Crypto.AESAny Crypto.KeyWrapAny.
 Import ListNotations.
 Open Scope N_scope.
 
@@ -24,7 +26,13 @@ Inductive case :=
 | CAesDec (k b o : list N)
 | CCmac (k m o : list N)
 | CWrap (kek p o : list N)
-| CUnwrap (kek d : list N) (o : option (list N)).
+| CUnwrap (kek d : list N) (o : option (list N))
+(* keys of any length; o = None: NewCipher returned the key-size error *)
+| CAesEncAny (k b : list N) (o : option (list N))
+| CAesDecAny (k b : list N) (o : option (list N))
+| CWrapAny (kek p : list N) (o : option (list N))
+(* Some (Some p) = unwrapped, Some None = integrity error, None = key-size error *)
+| CUnwrapAny (kek d : list N) (o : option (option (list N))).
 
 Definition check (c : case) : N :=
   match c with
@@ -53,6 +61,45 @@ Definition check (c : case) : N :=
           | Some p => bytes_eqb (wrap_rk rks default_iv p) (firstn (8 * (length d / 8)) d)
           | None => negb ok
           end)
+  | CAesEncAny k b o =>
+    match expand_key_any k, o with
+    | Some rks, Some c =>
+      code (bytes_eqb (aes_encrypt_rk rks b) c)
+           (bytes_eqb (aes_decrypt_rk rks c) b && Nat.eqb (length c) 16)
+    | None, None => 0
+    | Some _, None => 3          (* a key of 16/24/32 bytes refused *)
+    | None, Some _ => 3          (* another key size accepted *)
+    end
+  | CAesDecAny k b o =>
+    match expand_key_any k, o with
+    | Some rks, Some c =>
+      code (bytes_eqb (aes_decrypt_rk rks b) c)
+           (bytes_eqb (aes_encrypt_rk rks c) b && Nat.eqb (length c) 16)
+    | None, None => 0
+    | _, _ => 3
+    end
+  | CWrapAny kek p o =>
+    match expand_key_any kek, o with
+    | Some rks, Some w =>
+      code (bytes_eqb (wrap_rk rks default_iv p) w)
+           (let '(iv, p') := unwrap_raw_rk rks w in
+            bytes_eqb iv default_iv && bytes_eqb p' p && Nat.eqb (length w) (length p + 8))
+    | None, None => 0
+    | _, _ => 3
+    end
+  | CUnwrapAny kek d o =>
+    match expand_key_any kek, o with
+    | Some rks, Some o' =>
+      let '(iv, p') := unwrap_raw_rk rks d in
+      let ok := bytes_eqb iv default_iv in
+      code (option_eqb bytes_eqb (if ok then Some p' else None) o')
+           (match o' with
+            | Some p => bytes_eqb (wrap_rk rks default_iv p) (firstn (8 * (length d / 8)) d)
+            | None => negb ok
+            end)
+    | None, None => 0
+    | _, _ => 3
+    end
   end.
 
 Definition run_cases := run_with check.
@@ -60,6 +107,18 @@ Definition run_cases := run_with check.
 (* the check is the model: these are the definitions of the public functions *)
 Example check_uses_wrap kek p : wrap kek p = wrap_rk (expand_key kek) default_iv p.
 Proof. reflexivity. Qed.
+Example check_uses_aes_any k b : aes_encrypt_any k b =
+  match expand_key_any k with Some rks => Some (aes_encrypt_rk rks b) | None => None end.
+Proof. reflexivity. Qed.
+Example check_uses_wrap_any kek p : wrap_any kek p =
+  match expand_key_any kek with Some rks => Some (wrap_rk rks default_iv p) | None => None end.
+Proof. reflexivity. Qed.
+Example check_uses_unwrap_any kek d : unwrap_any kek d =
+  match expand_key_any kek with
+  | Some rks => let '(iv, p') := unwrap_raw_rk rks d in if bytes_eqb iv default_iv then Some p' else None
+  | None => None
+  end.
+Proof. unfold unwrap_any, unwrap_raw_any. destruct (expand_key_any kek); reflexivity. Qed.
 Example check_uses_unwrap kek d :
   unwrap kek d = let '(iv, p') := unwrap_raw_rk (expand_key kek) d in
                  if bytes_eqb iv default_iv then Some p' else None.
